@@ -9,6 +9,9 @@ MkReq(kind, postings, mode, od, ref, ik, dry, target, tacct, mval, g) ==
 Create(ps, mode)        == MkReq("create", ps, mode, FALSE, "", "", FALSE, -1, "", "", 0)
 CreateG(ps, mode, g)    == MkReq("create", ps, mode, FALSE, "", "", FALSE, -1, "", "", g)
 CreateIkDry(ps, ik)     == MkReq("create", ps, "lit", FALSE, "", ik, TRUE, -1, "", "", 0)
+CreateRefDry(ps, ref)   == MkReq("create", ps, "lit", FALSE, ref, "", TRUE, -1, "", "", 0)
+\* a script that also writes account metadata (set_account_meta)
+CreateIkMeta(ps, ik, g) == MkReq("create", ps, "lit", FALSE, "", ik, FALSE, -1, "", "am", g)
 RevertG(t, g)           == MkReq("revert", <<>>, "lit", FALSE, "", "", FALSE, t, "", "", g)
 SetAcctG(a, v, g)       == MkReq("setmeta", <<>>, "lit", FALSE, "", "", FALSE, -1, a, v, g)
 CreateRef(ps, ref)      == MkReq("create", ps, "lit", FALSE, ref, "", FALSE, -1, "", "", 0)
@@ -31,6 +34,8 @@ WC == <<P("world", "C", 1)>>
 PB == <<P("$payer", "B", 2)>>
 A2 == <<P("A", "B", 4)>>
 ABC == <<P("A", "B", 1), P("B", "C", 1)>>
+\* a shape with a self-transfer, a zero amount and a repeated pair
+ODD == <<P("world", "A", 1), P("A", "A", 1), P("A", "B", 0), P("A", "B", 1)>>
 
 \* C02: racing for the 3 units on A, source named in every way a script can; revert of the funding tx
 PalFunds == <<Create(AB, "lit"), Create(AC, "var"), Create(PB, "meta"), Create(AC, "allot"), Create(AC, "max"), Create(AC, "seq"),
@@ -38,15 +43,16 @@ PalFunds == <<Create(AB, "lit"), Create(AC, "var"), Create(PB, "meta"), Create(A
 \* C11: one reference, disjoint sources, competitor succeeding or failing
 PalRef == <<CreateRef(WB, "r1"), CreateRef(WC, "r1"), CreateRef(A2, "r1"), CreateRef(AB, "r2")>>
 \* C07: duplicates of one key, of each kind, and retries after a restart
-PalIk == <<CreateIk(WB, "k1", 0), CreateIk(WB, "k1", 1), CreateIkDry(WB, "k1"), SetAcctIk("B", "v", "k2", 0), SetAcctIk("B", "v", "k2", 1),
+PalIk == <<CreateIk(WB, "k1", 0), CreateIk(WB, "k1", 1), CreateIkDry(WB, "k1"), CreateIkMeta(WC, "k4", 0), CreateIkMeta(WC, "k4", 1), SetAcctIk("B", "v", "k2", 0), SetAcctIk("B", "v", "k2", 1),
            RevertIk(0, "k3", 0), RevertIk(0, "k3", 1), RevertIk(1, "k3", 1)>>
 \* C10: racing reverts, forced and not, racing with a spend of the funds
-PalRevert == <<Revert(0, FALSE), Revert(0, TRUE), Create(AB, "lit"), Create(ABC, "lit"), Revert(1, FALSE)>>
+PalRevert == <<Revert(0, FALSE), Revert(0, TRUE), Create(AB, "lit"), Create(ABC, "lit"), Create(ODD, "lit"), Revert(1, FALSE), Revert(1, TRUE)>>
 \* C05 / C06 / C16: every kind of writer
 PalKinds == <<Create(WB, "lit"), Create(AB, "lit"), Revert(0, FALSE), SetAcct("B", "v"), DelAcct("B"), SetTx(0), DelTx(0), SetTx(7), CreateOd(A2)>>
 \* C05 / C06: writers before and after a restart
 PalRestart == <<Create(WB, "lit"), Create(AB, "lit"), Revert(0, FALSE), SetAcct("B", "v"),
                 CreateG(WB, "lit", 1), CreateG(AB, "lit", 1), SetAcctG("B", "v", 1), RevertG(0, 1)>>
 \* C14: previews of each kind among real writes
-PalDry == <<CreateDry(WB), CreateDry(A2), SetAcctDry("B", "v"), Create(WB, "lit"), Create(AB, "lit")>>
+PalDry == <<CreateDry(WB), CreateDry(A2), CreateDry(AB), SetAcctDry("B", "v"), Create(WB, "lit"), Create(AB, "lit"),
+            CreateIkDry(WB, "k1"), CreateIk(WB, "k1", 0), CreateRefDry(WC, "r9"), CreateRef(WC, "r9")>>
 =============================================================================
